@@ -189,9 +189,27 @@ def run(repo: Repo, tier: str) -> Report:
     txt = ast.unparse(m_)
     rep.ob("R-FORMULA", AFILE, "WhittakerSmoother.whitint", "only int16 input is accepted", "if self._obj.dtype != 'int16':" in txt and "NotImplementedError" in txt, "",
            "int16 requirement")
+    from ..rules import resolve_local
+    # the allocated output template and the declared dask output size, every local resolved to its definition
+    tdef = resolve_local(m_, site.args[3]) if len(site.args) > 3 else None
+    tlen = None
+    if isinstance(tdef, ast.Call) and ast.unparse(tdef.func) in ("np.zeros", "np.empty", "np.ones") and tdef.args:
+        tlen = ast.unparse(tdef.args[0])
+        if tlen.startswith("(") and tlen.endswith(",)"):
+            tlen = tlen[1:-2]
+    want_len = ("np.unique(labels_daily).size", "len(np.unique(labels_daily))", "np.unique(labels_daily).shape[0]")
+    osz = None
+    dgk = site.opts.get("dask_gufunc_kwargs")
+    if isinstance(dgk, ast.Dict):
+        for kk, vv in zip(dgk.keys, dgk.values):
+            if isinstance(kk, ast.Constant) and kk.value == "output_sizes" and isinstance(vv, ast.Dict):
+                for k2, v2 in zip(vv.keys, vv.values):
+                    if isinstance(k2, ast.Constant) and k2.value == "newtime":
+                        osz = ast.unparse(resolve_local(m_, v2))
+    osz_ok = osz is not None and tlen is not None and (osz in want_len or osz in (
+        f"{ast.unparse(tdef)}.size", f"{ast.unparse(tdef)}.shape[0]", f"len({ast.unparse(tdef)})"))
     rep.ob("R-FORMULA", AFILE, "WhittakerSmoother.whitint", "output length = number of unique daily labels",
-           "template_out = np.zeros(np.unique(labels_daily).size, dtype='u1')" in txt and "'output_sizes': {'newtime': template_out.size}" in txt, "",
-           "template_out / output_sizes")
+           tlen in want_len and osz_ok, f"template_out length = {tlen}; declared output_sizes['newtime'] = {osz}", "template_out / output_sizes")
     rep.ob("R-BIND", AFILE, site.where(), "arguments are (series, template, labels, template_out)",
            [ast.unparse(a) for a in site.args] == ["self._obj", "template", "labels_daily", "template_out"], f"{[ast.unparse(a) for a in site.args]}",
            "tinterpolate args", line=site.line)
